@@ -1,5 +1,6 @@
 import FlVerif.Drv.Leaf
 import FlVerif.Drv.State
+import FlVerif.Drv.Fld
 
 /-! Registry of driver command groups: one handler per group, tried in order (`none` = not mine / malformed). -/
 
@@ -7,5 +8,6 @@ namespace Drv
 def handlers : List (List SExp → Option SExp) :=
   [ leaf
   , state
+  , fld
   ]
 end Drv
